@@ -770,8 +770,10 @@ func (fsm *fsm) stateChange(nextState bgp.FSMState, reason *fsmStateReason) {
 			}
 		}
 
-		fsm.isEBGP = conf.IsEBGPPeer(fsm.gConf)
-		fsm.isConfed = fsm.gConf.IsConfederationMember(conf.Config.PeerAs)
+		// use the negotiated values: Config.PeerAs is zero when the peer AS is
+		// learnt from the OPEN message.
+		fsm.isEBGP = conf.State.PeerType == oc.PEER_TYPE_EXTERNAL
+		fsm.isConfed = fsm.gConf.IsConfederationMember(conf.State.PeerAs)
 		fsm.isTreatAsWithdraw = conf.ErrorHandling.Config.TreatAsWithdraw
 		// reset the state set by the previous session
 		fsm.twoByteAsTrans = false
